@@ -42,6 +42,8 @@ def runs(prop, tier):
          ("edge insertion order reversed / interleaved: G(4) x A3, G(5) x A2", [["--n", 4, "--alpha", "A3", "--ks", ks_q, "--eorder", o] for o in (1, 2)] + [["--n", 5, "--alpha", "A2", "--ks", ks_q, "--eorder", o] for o in (1, 2)]),
          ("amplified gadgets (parallel composition: 5 copies of the base graph glued at vertices 0 and 1, an edge joining the terminals stays single) over G(4) x {1,1000,2000} in 3 orientations and G(5) with at most 6 edges x {1,1000,2000} in 2 orientations, Horton reference",
           [["--n", 4, "--alpha", "H3", "--amp", 5, "--ks", "2,3", "--orient", o] for o in (0, 1, 2)] + [["--n", 5, "--alpha", "H3", "--amp", 5, "--ks", "2", "--max-m", 6, "--orient", o] for o in (0, 1)]),
+         ("positional output iterator (begin() of a pre-sized vector instead of a back_inserter): G(4) x A3, G(5) x A2, blob grammar x M3, k in {%s}" % ks_q,
+          [["--n", 4, "--alpha", "A3", "--ks", ks_q, "--outiter", 1], ["--n", 5, "--alpha", "A2", "--ks", ks_q, "--outiter", 1], ["--grammar", "blobs:3:2", "--alpha", "M3", "--ks", ks_q, "--outiter", 1]]),
          ("theta graphs with chords (11 vertices, many non-spanner edges competing for one heavy edge): edge #0 = 1000, every other edge over {1,2}, both orientations",
           [["--families", "thetac:3:4", "--alpha", "A2H", "--ks", "2,3", "--wchunks", 32, "--orient", o] for o in (0, 1)]),
          ("fixed menu: 1200 pseudo-random sparse graphs n=8..20 x 3 pseudo-random weightings in 1..9, and x every one-heavy-edge weighting for n <= 12",
